@@ -8,6 +8,7 @@ SUITES = {
     "core_heap":   ("random", "heap",  [],                    "debug",   (12, 60), (200, 200)),
     "core_plain":  ("random", "plain", [],                    "debug",   (12, 60), (200, 200)),
     "core_zst":    ("random", "zst",   [],                    "debug",   (6, 30),   (150, 60)),
+    "rel_zst":     ("random", "zst",   [],                    "release", (6, 30),   (150, 60)),
     "rel_heap":    ("random", "heap",  [],                    "release", (12, 60), (200, 200)),
     "rel_plain":   ("random", "plain", [],                    "release", (12, 60), (200, 200)),
     "two_heap":    ("random", "heap",  ["--two"],             "debug",   (12, 60), (200, 200)),
@@ -147,7 +148,7 @@ PROPS = {
     "C04": dict(suites=["sim_plain", "sim_heap", "big_plain", "big_heap", "big_collide", "tomb_plain", "tomb_heap", "core_plain", "rel_plain", "limits_dbg", "limits_rel", "two_heap", "defects", "repo_tests"], mc=["Small", "CountR8", "CountR4", "CountR8big"], apalache=True),
     "C05": dict(suites=["sim_plain", "sim_heap", "fault_heap", "fault_heap_rel", "tomb_plain", "tomb_heap", "core_heap", "rel_heap", "core_zst", "set_heap", "set_zst", "two_heap", "two_plain_rel", "defects"], mc=["Cursor", "CursorZst", "Iter", "Small", "CountR8"], asan=["two_heap", "two_plain_rel", "core_heap", "fault_heap", "set_heap", "tomb_heap", "defects"], miri=True),
     # (zero-sized elements are drop-counted: live objects = elements held, after every call)
-    "C06": dict(suites=["entry_heap", "entry_plain", "core_heap", "rel_heap", "two_heap", "set_heap", "set_two", "core_zst", "set_zst", "defects"], mc=["Small"]),
+    "C06": dict(suites=["entry_heap", "entry_plain", "core_heap", "rel_heap", "two_heap", "set_heap", "set_two", "core_zst", "rel_zst", "set_zst", "defects"], mc=["Small"]),
     # after an injected panic the semantic/safety monitors are part of "the map stays memory-safe and
     # self-consistent, later operations behave normally": their failures after a fault count for C07
     # (unless the fault-free control segments fail too: then the panic is not to blame)
